@@ -380,6 +380,14 @@ class UserFcn:
         return hash((self.expr, self.name))
 
 
+def _sameArgument(x, y):
+    """Equality of two call arguments for caching; arguments that cannot be compared (e.g. dicts of arrays) differ."""
+    try:
+        return bool(np.array_equal(x, y))
+    except (ValueError, TypeError):
+        return False
+
+
 class CachedFcn(UserFcn):
     """Represents a cached UserFcn.
 
@@ -402,13 +410,13 @@ class CachedFcn(UserFcn):
             and len(args) == len(self.lastArgs)
             and (
                 all(x is y for x, y in zip(args, self.lastArgs))
-                or (np is not None and all(np.array_equal(x, y) for x, y in zip(args, self.lastArgs)))
+                or (np is not None and all(_sameArgument(x, y) for x, y in zip(args, self.lastArgs)))
                 or (np is None and all(x == y for x, y in zip(args, self.lastArgs)))
             )
             and set(kwds.keys()) == set(self.lastKwds.keys())
             and (
                 all(kwds[k] is self.lastKwds[k] for k in kwds)
-                or (np is not None and all(np.array_equal(kwds[k], self.lastKwds[k]) for k in kwds))
+                or (np is not None and all(_sameArgument(kwds[k], self.lastKwds[k]) for k in kwds))
                 or (np is None and all(kwds[k] == self.lastKwds[k] for k in kwds))
             )
         ):
